@@ -7,7 +7,7 @@ B = guards.HARD_EVALS
 RULE = (
     "case = one call of the real calculate_partial_fluxes (C02's domain, 60 % of the cases with the permeate "
     "temperature within |N(0, 8 K)| of the feed temperature where the fixed-point map cycles, both activity models, "
-    "precision 1e-8..1e-3), the recorded D4 witness, plus ideal process / curve models started in that region. Two "
+    "precision 1e-8..1e-3), the recorded D4 witness, plus ideal and non-ideal process / curve models started in that region. Two "
     f"independent online budgets watch every call: <= {B} driving-force evaluations (counter on the real helper) and "
     f"<= {B * guards.LINES_PER_EVAL} line events (sys.monitoring LINE on every code object of pyvaporation/pervaporation, so an inlined or "
     "moved loop is still bounded). non-trivial = the iteration ran (a permeate condition was present); distinct = "
@@ -66,10 +66,21 @@ def run_shard(spec, rep):
             break
         rng = gen.case_rng(PROP, spec["seed"], spec["shard"], idx)
         fc = gen.FluxCase(rng, modes=["Tnear"], p_membrane=1.0)
-        kind = rng.choice(["ideal_isothermal_process", "ideal_non_isothermal_process", "ideal_diffusion_curve"])
+        kind = rng.choice(["ideal_isothermal_process", "ideal_non_isothermal_process", "ideal_diffusion_curve",
+                           "non_ideal_isothermal_process", "non_ideal_non_isothermal_process", "non_ideal_diffusion_curve"])
         case = dict(fc.describe(), index=idx, kind=kind)
         rep.case(case, cls="model-" + kind)
-        if kind == "ideal_diffusion_curve":
+        if kind.startswith("non_ideal"):
+            cs, _ = gen.gen_curve_set(rng, fc.mix, n_curves=rng.choice([1, 2]))
+            o = dict(n_first=0, n_second=0, m_first=0, m_second=0)
+            if kind == "non_ideal_diffusion_curve":
+                fn = lambda: fc.pv.non_ideal_diffusion_curve(diffusion_curve_set=cs, feed_temperature=fc.t_feed, initial_feed_composition=fc.comp, delta_composition=0.005,
+                                                             number_of_steps=4, permeate_temperature=fc.tp, precision=fc.precision, calculation_type=fc.model, **o)
+            else:
+                cond = Conditions(membrane_area=1.0, initial_feed_temperature=fc.t_feed, initial_feed_amount=100.0,
+                                  initial_feed_composition=fc.comp, permeate_temperature=fc.tp)
+                fn = lambda: getattr(fc.pv, kind)(conditions=cond, diffusion_curve_set=cs, number_of_steps=5, delta_hours=0.05, precision=fc.precision, calculation_type=fc.model, **o)
+        elif kind == "ideal_diffusion_curve":
             comps = [gen.gen_composition(rng, fc.mix) for _ in range(4)]
             fn = lambda: fc.pv.ideal_diffusion_curve(fc.t_feed, comps, permeate_temperature=fc.tp, precision=fc.precision, calculation_type=fc.model)
         else:
